@@ -4054,6 +4054,17 @@ static std::list<ValueFlow::Value> truncateValues(std::list<ValueFlow::Value> va
 
     if (src) {
         const size_t osz = src->getSizeOf(settings, ValueType::Accuracy::ExactOrZero, ValueType::SizeOf::Pointer);
+        // an impossible value of the source is a fact about the result only if the conversion preserves every value
+        if (src->isIntegral() && src->pointer == 0 && dst->pointer == 0) {
+            const bool nonNegative = std::any_of(values.cbegin(), values.cend(), [](const ValueFlow::Value& value) {
+                return value.isIntValue() && value.isImpossible() && value.bound == ValueFlow::Value::Bound::Upper && value.intvalue >= -1;
+            });
+            if (!ValueFlow::isValuePreservingConversion(*src, *dst, nonNegative, settings)) {
+                values.remove_if([](const ValueFlow::Value& value) {
+                    return value.isIntValue() && value.isImpossible();
+                });
+            }
+        }
         if (osz >= sz && dst->sign == ValueType::Sign::SIGNED && src->sign == ValueType::Sign::UNSIGNED) {
             values.remove_if([&](const ValueFlow::Value& value) {
                 if (!value.isIntValue())
